@@ -17,6 +17,7 @@ import (
 	"sort"
 	"sync"
 	"testing"
+	"time"
 
 	"github.com/jessevdk/go-flags"
 	"github.com/snower/slock/protocol"
@@ -106,6 +107,7 @@ type vWorldCfg struct {
 	RewriteSz  uint    `json:"rewritesize"`
 	DataDir    string  `json:"-"`
 	NoAof      bool    `json:"noaof"`
+	RealClock  bool    `json:"realclock"`
 }
 
 type vWorld struct {
@@ -120,6 +122,23 @@ type vWorld struct {
 	gate   func(w *vWorld, ev map[string]interface{})
 	sweepQ map[uint8]*vSweepQueues
 	dir    string
+	t0     time.Time // start of the history (real-time engine)
+}
+
+// ms since the start of the history (0 on the virtual clock)
+func (w *vWorld) ms() int64 {
+	if !w.cfg.RealClock {
+		return 0
+	}
+	return time.Since(w.t0).Milliseconds()
+}
+
+// server second used to stamp events
+func (w *vWorld) sec() int64 {
+	if w.cfg.RealClock {
+		return time.Now().Unix()
+	}
+	return w.now
 }
 
 type vSweepQueues struct {
@@ -164,7 +183,7 @@ var vLoggerOnce sync.Once
 
 // vNewWorld builds a leader SLock on a scratch data dir with the wall-clock sweepers disabled.
 func vNewWorld(t *testing.T, cfg vWorldCfg, tr *vTrace, startNow int64) *vWorld {
-	VerifManualClock = true
+	VerifManualClock = !cfg.RealClock
 	if cfg.DataDir == "" {
 		d, err := os.MkdirTemp("", "vslock")
 		if err != nil {
@@ -179,7 +198,7 @@ func vNewWorld(t *testing.T, cfg vWorldCfg, tr *vTrace, startNow int64) *vWorld 
 		panic(fmt.Sprintf("initLeader: %v", err))
 	}
 	w := &vWorld{t: t, cfg: cfg, slock: slock, now: startNow, conns: map[int]*vConn{}, tr: tr, curReq: -1,
-		sweepQ: map[uint8]*vSweepQueues{}, dir: cfg.DataDir}
+		sweepQ: map[uint8]*vSweepQueues{}, dir: cfg.DataDir, t0: time.Now()}
 	return w
 }
 
@@ -208,9 +227,11 @@ func (w *vWorld) db(dbId uint8) *LockDB {
 	db := w.slock.dbs[dbId]
 	if db == nil {
 		db = w.slock.GetOrNewDB(dbId)
-		db.currentTime = w.now
-		db.checkTimeoutTime = w.now + 1
-		db.checkExpriedTime = w.now + 1
+		if !w.cfg.RealClock {
+			db.currentTime = w.now
+			db.checkTimeoutTime = w.now + 1
+			db.checkExpriedTime = w.now + 1
+		}
 	}
 	return db
 }
@@ -308,7 +329,7 @@ func (c *vConn) ProcessLockResultCommandLocked(command *protocol.LockCommand, re
 	ev := map[string]interface{}{
 		"e": "reply", "conn": c.id, "rid": vReqIdInt(command.RequestId), "res": int(result),
 		"lc": int(lcount), "lrc": int(lrcount), "lid": vKeyInt(command.LockId), "key": vKeyInt(command.LockKey),
-		"db": int(command.DbId), "ct": int(command.CommandType), "t": w.now, "cur": w.curReq,
+		"db": int(command.DbId), "ct": int(command.CommandType), "t": w.sec(), "ms": w.ms(), "cur": w.curReq,
 		"cnt": int(command.Count), "rc": int(command.Rcount), "ex": int(command.Expried), "to": int(command.Timeout),
 	}
 	if data != nil {
@@ -395,7 +416,7 @@ func (w *vWorld) reqEvent(id int64, r *vReq) map[string]interface{} {
 	}
 	return map[string]interface{}{"e": "req", "id": id, "conn": r.Conn, "cmd": ct, "db": r.Db, "key": r.Key, "lid": r.Lid,
 		"flag": flag, "tf": r.TFlag, "ef": r.EFlag, "to": r.Timeout, "ex": r.Expried, "cnt": r.Count, "rc": r.Rcount,
-		"t": w.now, "data": r.Data}
+		"t": w.sec(), "ms": w.ms(), "data": r.Data}
 }
 
 // Issue runs one client request to completion on the calling goroutine.
@@ -496,6 +517,25 @@ func vSnapManager(db *LockDB, m *LockManager) vKeySnap {
 // Snapshot walks every live key manager of every database.  Callers must be quiescent (no
 // goroutine inside a shard-mutex section).
 func (w *vWorld) Snapshot() map[string]interface{} {
+	if w.cfg.RealClock {
+		// sweeper goroutines are alive: take every shard mutex while walking the structures
+		for _, db := range w.slock.dbs {
+			if db != nil {
+				for i := uint16(0); i < db.managerMaxGlocks; i++ {
+					db.managerGlocks[i].Lock()
+				}
+			}
+		}
+		defer func() {
+			for _, db := range w.slock.dbs {
+				if db != nil {
+					for i := uint16(0); i < db.managerMaxGlocks; i++ {
+						db.managerGlocks[i].Unlock()
+					}
+				}
+			}
+		}()
+	}
 	keys := []vKeySnap{}
 	states := map[string]interface{}{}
 	nlive := 0
@@ -535,7 +575,7 @@ func (w *vWorld) Snapshot() map[string]interface{} {
 		}
 		return keys[i].Key < keys[j].Key
 	})
-	return map[string]interface{}{"e": "snap", "t": w.now, "keys": keys, "st": states, "nkeys": nlive, "tw": tw, "ew": ew}
+	return map[string]interface{}{"e": "snap", "t": w.sec(), "keys": keys, "st": states, "nkeys": nlive, "tw": tw, "ew": ew}
 }
 
 // vWheelCensus counts live (not tombstoned) entries on the timeout and expiry structures.
